@@ -49,12 +49,15 @@ const (
 	NilRuntimeType // abstract: resolveType yields nil
 	IsTypeOfFalse  // object with IsTypeOf: says no
 	ThunkThunk     // thunk returning a thunk
+	Inf            // float +Inf for numeric leaves
+	NumericString  // a string that parses as NaN / Inf / a huge number
+	SerializeToNil // a value the (custom) scalar serialises to a typed nil pointer
 	NumKinds
 )
 
 var kindNames = [...]string{"value", "nil", "error", "value+error", "panic(error)", "panic(string)", "panic(struct)",
 	"thunk→value", "thunk→nil", "thunk→error", "thunk→panic", "typed-nil", "wrong-kind", "NaN", "out-of-range", "unknown-enum",
-	"bad-runtime-type", "nil-runtime-type", "isTypeOf=false", "thunk→thunk"}
+	"bad-runtime-type", "nil-runtime-type", "isTypeOf=false", "thunk→thunk", "+Inf", "numeric-string", "serialize→typed-nil"}
 
 func (k Kind) String() string {
 	if int(k) < len(kindNames) {
@@ -169,6 +172,10 @@ func LeafInternal(s *model.Schema, seed uint64, name, path string) interface{} {
 
 // TagSerializePrefix is what the custom scalar Tag prepends on output.
 const TagSerializePrefix = "ser:"
+
+// TagTypedNil is the value the custom scalar Tag serialises to a typed nil
+// pointer (a nullish value that is not the untyped nil).
+const TagTypedNil = "please-serialize-to-typed-nil"
 
 func LeafSerialized(s *model.Schema, seed uint64, name, path string) interface{} {
 	v := LeafInternal(s, seed, name, path)
